@@ -8,7 +8,9 @@ hence (`inv_run`, induction over the op list) true in every reachable state:
 * `Inv2` values: delivered ++ waiting = yielded, per source; what an ended source left behind;
 * `Inv3` exceptions: the stored exception is the one caught last, caught exceptions ↔ throwing sources;
 * `Inv4` argument routing;
-* `Inv5` every delivered value names a source; the drain pops distinct sources.
+* `Inv5` every delivered value names a source; the drain pops distinct sources;
+* `Inv6` argument storage: the object a source's argument reference points to holds the argument the source was
+  charged with last, so every later fetch returns that argument.
 
 Every lemma quantifies over all configurations (`Cfg`: any number of sources, any scripts) and all states.
 
@@ -925,6 +927,167 @@ theorem inv5_init (c : Cfg) : Inv5 c init := by
       | succ n ih => simp [nWith, ih, isDropped]
     simp [init, this]
 
+/-! ## part 6: argument storage — a source reads the argument it was charged with, whenever it reads -/
+
+structure Inv6 (s : State) : Prop where
+  /-- the `GenCallback`'s copy is the argument of the last charge -/
+  cell_last : ∀ k, s.cell k = (s.got k).getLast?
+  /-- a source that has been started has received an argument -/
+  charged : ∀ k, s.st k ≠ SSt.fresh → s.got k ≠ []
+  /-- every fetch after an await returned the argument received last before it -/
+  late_ok : ∀ k p, p ∈ s.late k → ∃ a, p.2 = some a ∧ 0 < p.1 ∧ (s.got k)[p.1 - 1]? = some a
+
+theorem inv6_mono (s s' : State) (h : Inv6 s) (hc : s'.cell = s.cell) (hg : s'.got = s.got) (hl : s'.late = s.late)
+    (hst : ∀ k, s'.st k ≠ SSt.fresh → s.st k ≠ SSt.fresh ∨ s.got k ≠ []) : Inv6 s' := by
+  obtain ⟨e1, e2, e3⟩ := h
+  refine ⟨?_, ?_, ?_⟩
+  · intro k; rw [hc, hg]; exact e1 k
+  · intro k hk
+    rw [hg]
+    rcases hst k hk with h | h
+    · exact e2 k h
+    · exact h
+  · intro k p hp; rw [hl] at hp; rw [hg]; exact e3 k p hp
+
+theorem srcRun_args (c : Cfg) (s : State) (k : Nat) :
+    (srcRun c s k).cell = s.cell ∧ (srcRun c s k).late = s.late ∧ (srcRun c s k).aggArg = s.aggArg
+    ∧ ∀ j, j ≠ k → (srcRun c s k).st j = s.st j := by
+  unfold srcRun push
+  split <;> (refine ⟨rfl, rfl, rfl, ?_⟩; intro j hj; simp [hj])
+
+/-- a source that runs has been charged before -/
+theorem inv6_srcRun (c : Cfg) (s : State) (k : Nat) (h : Inv6 s) (hk : s.got k ≠ []) : Inv6 (srcRun c s k) := by
+  obtain ⟨g1, _, _, _⟩ := srcRun_ghost c s k
+  obtain ⟨a1, a2, _, a4⟩ := srcRun_args c s k
+  refine inv6_mono s _ h a1 g1 a2 ?_
+  intro j hj
+  by_cases hjk : j = k
+  · subst hjk; exact Or.inr hk
+  · rw [a4 j hjk] at hj; exact Or.inl hj
+
+/-- `gcb->charge(a)`: the copy is replaced, the source receives `a`; earlier fetches keep pointing at earlier entries -/
+theorem inv6_charge (c : Cfg) (s : State) (k a : Nat) (h : Inv6 s) : Inv6 (charge c s k a) := by
+  unfold charge
+  apply inv6_srcRun
+  · obtain ⟨e1, e2, e3⟩ := h
+    refine ⟨?_, ?_, ?_⟩
+    · intro j
+      by_cases hj : j = k
+      · subst hj; simp
+      · simp [hj]; exact e1 j
+    · intro j hj
+      by_cases hjk : j = k
+      · subst hjk; simp
+      · simp [hjk]; exact e2 j hj
+    · intro j p hp
+      obtain ⟨b, hb, hpos, hget⟩ := e3 j p hp
+      refine ⟨b, hb, hpos, ?_⟩
+      by_cases hjk : j = k
+      · subst hjk
+        simp only [upd_same]
+        have hlt : p.1 - 1 < (s.got j).length := by
+          rcases Nat.lt_or_ge (p.1 - 1) (s.got j).length with h | h
+          · exact h
+          · rw [List.getElem?_eq_none h] at hget; cases hget
+        rw [List.getElem?_append_left hlt]
+        exact hget
+      · simp [hjk]; exact hget
+  · simp
+
+theorem inv6_lateRead (c : Cfg) (s : State) (k : Nat) (h : Inv6 s) (hk : s.st k = SSt.inflight) :
+    Inv6 (lateRead c s k) := by
+  unfold lateRead
+  split
+  · obtain ⟨e1, e2, e3⟩ := h
+    have hne : s.got k ≠ [] := e2 k (by simp [hk])
+    refine ⟨e1, e2, ?_⟩
+    intro j p hp
+    by_cases hjk : j = k
+    · subst hjk
+      simp only [upd_same, List.mem_append, List.mem_singleton] at hp
+      rcases hp with hp | rfl
+      · exact e3 j p hp
+      · obtain ⟨a, ha⟩ : ∃ a, (s.got j).getLast? = some a := by
+          cases hl : (s.got j).getLast? with
+          | none => exact absurd (List.getLast?_eq_none_iff.mp hl) hne
+          | some a => exact ⟨a, rfl⟩
+        refine ⟨a, ?_, ?_, ?_⟩
+        · simp only []; rw [e1 j, ha]
+        · exact List.length_pos_iff.mpr hne
+        · simp only []; rw [← ha, List.getLast?_eq_getElem?]
+    · simp only [upd_other _ _ _ _ hjk] at hp
+      exact e3 j p hp
+  · exact h
+
+theorem inv6_popHandle (c : Cfg) (s : State) (h : Inv6 s) (h1 : Inv1 c s) : Inv6 (popHandle s) := by
+  unfold popHandle
+  split
+  · exact h
+  · rename_i k r hq
+    obtain ⟨hk, _⟩ := head_queued c s h1 k r hq
+    have key : ∀ x j, upd s.st k x j ≠ SSt.fresh → s.st j ≠ SSt.fresh ∨ s.got j ≠ [] := by
+      intro x j hj
+      by_cases hjk : j = k
+      · subst hjk; left; simp [hk]
+      · simp [hjk] at hj; exact Or.inl hj
+    split
+    · exact inv6_mono s _ h rfl rfl rfl (key _)
+    · exact inv6_mono s _ h rfl rfl rfl (key _)
+    · exact inv6_mono s _ h rfl rfl rfl (key _)
+    · exact h
+
+theorem inv6_same (s s' : State) (h : Inv6 s) (hc : s'.cell = s.cell) (hg : s'.got = s.got) (hl : s'.late = s.late)
+    (hst : s'.st = s.st) : Inv6 s' :=
+  inv6_mono s s' h hc hg hl (fun k hk => Or.inl (by rw [hst] at hk; exact hk))
+
+theorem inv6_step (c : Cfg) (s : State) (op : Op) (h : Inv6 s) (h1 : Inv1 c s) : Inv6 (step c s op) := by
+  cases op with
+  | next a =>
+    simp only [step, stepNext]
+    split <;> first | exact h | exact inv6_same s _ h rfl rfl rfl rfl
+  | destroy b =>
+    simp only [step, stepDestroy]
+    split <;> first | exact h | exact inv6_same s _ h rfl rfl rfl rfl
+  | resolve k =>
+    simp only [step, stepResolve]
+    split
+    · rename_i hk
+      have h' := inv6_lateRead c s k h hk
+      apply inv6_srcRun c _ k h'
+      obtain ⟨l, hl⟩ := lateRead_eq c s k
+      rw [hl]
+      exact h.charged k (by simp [hk])
+    · exact h
+  | agg =>
+    simp only [step, aggStep]
+    split
+    · split
+      · exact inv6_same _ _ (inv6_charge c s _ _ h) rfl rfl rfl rfl
+      · exact inv6_same s _ h rfl rfl rfl rfl
+    · exact inv6_same _ _ (inv6_charge c s _ _ h) rfl rfl rfl rfl
+    · split
+      · unfold finish
+        split <;> exact inv6_same s _ h rfl rfl rfl rfl
+      · split
+        · exact inv6_same s _ h rfl rfl rfl rfl
+        · exact inv6_popHandle c s h h1
+    · exact inv6_popHandle c s h h1
+    · split
+      · split
+        · exact inv6_same s _ h rfl rfl rfl rfl
+        · rename_i k r hq
+          obtain ⟨hk, _⟩ := head_queued c s h1 k r hq
+          refine inv6_mono s _ h rfl rfl rfl ?_
+          intro j hj
+          by_cases hjk : j = k
+          · subst hjk; left; simp [hk]
+          · simp [hjk] at hj; exact Or.inl hj
+      · exact inv6_same s _ h rfl rfl rfl rfl
+    · exact h
+
+theorem inv6_init : Inv6 init := by
+  constructor <;> simp [init]
+
 /-! ## all together -/
 
 structure Inv (c : Cfg) (s : State) : Prop where
@@ -933,12 +1096,13 @@ structure Inv (c : Cfg) (s : State) : Prop where
   excs : Inv3 s
   args : Inv4 c s
   misc : Inv5 c s
+  cells : Inv6 s
 
-theorem inv_init (c : Cfg) : Inv c init := ⟨inv1_init c, inv2_init c, inv3_init, inv4_init c, inv5_init c⟩
+theorem inv_init (c : Cfg) : Inv c init := ⟨inv1_init c, inv2_init c, inv3_init, inv4_init c, inv5_init c, inv6_init⟩
 
 theorem inv_step (c : Cfg) (s : State) (op : Op) (h : Inv c s) : Inv c (step c s op) :=
   ⟨inv1_step c s op h.ctl, inv2_step c s op h.vals h.ctl, inv3_step c s op h.excs h.ctl, inv4_step c s op h.args h.ctl,
-   inv5_step c s op h.misc h.ctl⟩
+   inv5_step c s op h.misc h.ctl, inv6_step c s op h.cells h.ctl⟩
 
 theorem inv_run (c : Cfg) (s : State) (ops : List Op) (h : Inv c s) : Inv c (run c s ops) := by
   induction ops generalizing s with
